@@ -49,7 +49,7 @@ ASSUMPTIONS = [
     'rounded additions), direction = sign(stop - start)',
 ]
 SHARDS = {'quick': 4, 'thorough': 16}
-REQUIRED_CLASSES = {'header-spacing-zero': 1, 'file-nontrivial': 1, 'passes>=2': 1, 'short-last-block': 1, 'blocks-differ': 1, 'channels==20': 1,
+REQUIRED_CLASSES = {'header-spacing-zero': 1, 'data-block>=65536-bytes': 1, 'file-nontrivial': 1, 'passes>=2': 1, 'short-last-block': 1, 'blocks-differ': 1, 'channels==20': 1,
                     'channels==1': 1, 'up-log': 1, 'down-log': 1, 'word-unnormalised': 1, 'word-zero-fraction': 1,
                     'word-negative': 1, 'sweep-words': 1, 'bundled-file': 1, 'block-bytes>=4096': 1}
 
@@ -519,6 +519,34 @@ def check_handle_history(case, cc):
             check_model(model, data, cc, fobj)
 
 
+def big_block_files():
+    """A data block of 64 KiB and more (4 * channels * frames >= 65536 bytes): the frames of a small generated pass are
+    repeated when the case is checked, and written as one block, or as one big block followed by a small one."""
+    return st.builds(lambda m, extra, split: {'model': m, 'extra': extra, 'split': split},
+                     bit.bit_models(max_passes=2, max_channels=4, max_frames=24, min_frames=4, endings=('standard',)),
+                     st.sampled_from([-8, 0, 4, 400, 4000]), st.booleans())
+
+
+def check_big_block(case, cc):
+    model = case['model']
+    p = dict(model['passes'][0])
+    n, f = len(p['channels']), len(p['data'][0])
+    want = (65536 + case['extra']) // (4 * n) + 1          # frames so that one block holds about 64 KiB + extra
+    k = -(-want // f)
+    p['data'] = [(list(c) * k)[:want] for c in p['data']]
+    tail = 3 if case['split'] and want > 3 else 0
+    p['block_frames'] = [want - tail] + ([tail] if tail else [])
+    model = dict(model, passes=[p] + list(model['passes'][1:]))
+    try:
+        data = bit.encode_bit_file(model)
+    except bit.BitModelError as err:
+        raise HarnessError('generator produced an un-encodable model: %s' % err)
+    cc.nt(True)
+    cc.cls('data-block>=65536-bytes', 4 * n * (want - tail) >= 65536)
+    cc.cls('data-block-just-below-65536-bytes', 4 * n * (want - tail) < 65536)
+    check_model(model, data, cc)
+
+
 def check_bundled(case, cc):
     path = os.path.join(REPO, case['path'])
     with open(path, 'rb') as f:
@@ -573,6 +601,7 @@ def parts(tier):
         HypPart('files-small', small_files(), check_file, 1600, 16000),
         HypPart('files', general_files(), check_file, 2000, 12800),
         HypPart('handle-history', handle_histories(), check_handle_history, 600, 6000),
+        HypPart('files-big-block', big_block_files(), check_big_block, 12, 160),
     ]
 
 
